@@ -261,6 +261,10 @@ pub fn accepted_low_level(level: usize, mut f: impl FnMut(u64, &[u8])) -> u64 {
             }
         }
     }
+    for p in aligned_pointer_packets() {
+        f(n, &p);
+        n += 1;
+    }
     n
 }
 
@@ -629,4 +633,56 @@ pub fn pointer_chain_packet(k: usize, seg_label_len: usize) -> Vec<u8> {
     }
     p.extend_from_slice(&[0, 1, 0, 1, 0, 0, 0, 1, 0, 4, 1, 2, 3, 4]);
     p
+}
+
+/// Packets in which a name starts exactly at offset `t` (e.g. 255, 256, 257, 512: pointer bytes c1 00,
+/// c2 00 ...) and later owner and rdata names point at it and at its inner suffix.
+pub fn aligned_pointer_packets() -> Vec<Vec<u8>> {
+    let mut v = vec![];
+    for t in [254usize, 255, 256, 257, 258, 511, 512, 513, 767, 768, 1024] {
+        for with_opt in [false, true] {
+            let q = nm("q.test");
+            let mut p = vec![0x12, 0x34, 0x81, 0x80, 0, 1, 0, 4, 0, 1, 0, if with_opt { 2 } else { 1 }];
+            p.extend_from_slice(&q);
+            p.extend_from_slice(&[0, 1, 0, 1]);
+            // filler TXT record (owner root) sized so that the next record's owner starts at t
+            let fixed = 1 + 10;
+            let fill = t - p.len() - fixed;
+            p.push(0);
+            p.extend_from_slice(&[0, 16, 0, 1, 0, 0, 0, 9]);
+            p.extend_from_slice(&(fill as u16).to_be_bytes());
+            p.push((fill - 1).min(255) as u8);
+            p.extend(std::iter::repeat(b'f').take(fill - 1));
+            assert_eq!(p.len(), t);
+            // literal name at t: "host.zone.example"
+            let name = nm("host.zone.example");
+            p.extend_from_slice(&name);
+            p.extend_from_slice(&[0, 1, 0, 1, 0, 0, 0, 1, 0, 4, 1, 2, 3, 4]);
+            let ptr = |o: usize| [0xc0 | (o >> 8) as u8, o as u8];
+            // owner = pointer to t ; CNAME target = label + pointer to inner suffix (t+5)
+            p.extend_from_slice(&ptr(t));
+            p.extend_from_slice(&[0, 5, 0, 1, 0, 0, 0, 2, 0, 6, 3, b'w', b'w', b'w']);
+            p.extend_from_slice(&ptr(t + 5));
+            // owner = label + pointer to t ; MX target = pointer to t
+            p.extend_from_slice(&[2, b'm', b'x']);
+            p.extend_from_slice(&ptr(t));
+            p.extend_from_slice(&[0, 15, 0, 1, 0, 0, 0, 3, 0, 4, 0, 7]);
+            p.extend_from_slice(&ptr(t));
+            // authority: SOA with both names pointing at t and t+5
+            p.extend_from_slice(&ptr(t + 5));
+            p.extend_from_slice(&[0, 6, 0, 1, 0, 0, 0, 4, 0, 24]);
+            p.extend_from_slice(&ptr(t));
+            p.extend_from_slice(&ptr(t + 5));
+            p.extend_from_slice(&[7; 20]);
+            // additional: A owned by pointer to t (and OPT)
+            if with_opt {
+                p.extend_from_slice(&[0, 0, 41, 4, 0, 0, 0, 0, 0, 0, 0]);
+            }
+            p.extend_from_slice(&ptr(t));
+            p.extend_from_slice(&[0, 1, 0, 1, 0, 0, 0, 5, 0, 4, 9, 9, 9, 9]);
+            assert!(wf(&p).is_ok(), "aligned packet ill-formed: {:?}", wf(&p));
+            v.push(p);
+        }
+    }
+    v
 }
